@@ -88,6 +88,26 @@ def gen(repo):
     if not send_arm:
         raise TranslateError("process(): the Cmd::Send arm was not recognised")
 
+    # ---- process(): ONE call dispatches the WHOLE swapped batch, front to back — no budget, no early exit, nothing handed back
+    m_loop = re.search(r"for\s*\(\s*auto\s*&\s*\w+\s*:\s*q\s*\)\s*\{", proc)
+    loop_end = cxxscan.match_brace(proc, m_loop.end() - 1)
+    loop_body = proc[m_loop.end():loop_end]
+    m_sw = re.search(r"switch\s*\(\s*\w+\s*\.\s*t\s*\)\s*\{", loop_body)
+    if not m_sw:
+        raise TranslateError("process(): `switch (c.t)` inside the dispatch loop was not recognised")
+    sw_end = cxxscan.match_brace(loop_body, m_sw.end() - 1)
+    outside_switch = loop_body[:m_sw.start()] + loop_body[sw_end + 1:]
+    loop_exits = len(re.findall(r"\b(?:break|continue|return|goto)\b", outside_switch))
+    n_loops_proc = len(re.findall(r"\b(?:while|for|do)\b", re.sub(r'"(?:[^"\\\\]|\\\\.)*"', '""', proc)))
+    proc_cmds_ops = re.findall(r"_cmds\s*\.\s*(\w+)\s*\(", proc) + ["swap-arg" for _ in re.findall(r"\.\s*swap\s*\(\s*_cmds\s*\)", proc)]
+    proc_evt_writes = len(re.findall(r"::\s*write\s*\(\s*_eventFd\b", proc))
+    proc_locks = len(re.findall(r"std::(?:lock_guard|unique_lock|scoped_lock)\s*<[^>]*>\s*\w+\s*\(\s*_cmdMutex\s*\)", proc))
+    whole_batch = loop_exits == 0 and n_loops_proc == 1 and proc_cmds_ops == ["swap-arg"] and proc_evt_writes == 0 and proc_locks == 1
+    # every mutation of `_cmds` and every eventfd write in the engine, by count (enqueue x2 push_back + write, process swap, shutdownDrain swap)
+    cmds_mut = sorted(re.findall(r"_cmds\s*\.\s*(push_back|push_front|emplace_back|emplace_front|insert|erase|clear|pop_back|pop_front|swap|assign|resize)\s*\(", esrc)
+                      + ["swap-arg" for _ in re.findall(r"\.\s*swap\s*\(\s*_cmds\s*\)", esrc)])
+    evt_writes_total = len(re.findall(r"::\s*write\s*\(\s*_eventFd\b", esrc))
+
     # ---- send(): one command per call, private copy of all n bytes, n == 0 not enqueued
     snd = cxxscan.function_body(esrc, "send", signature_contains="const void")
     m0 = re.search(r"if\s*\(\s*n\s*==\s*0\s*\)\s*\{\s*return\s+(\w+)\s*;", snd)
@@ -328,6 +348,11 @@ def gen(repo):
     t += "def enqueueQueueOps : List String := %s\n" % _lean_strs(enq_push)
     t += "/-- `TcpEngine::process`: `q.swap(_cmds)` lies inside the scope of a lock on `_cmdMutex`; the batch is walked by `for (auto &c : q)` -/\n"
     t += "def processSwapUnderCmdMutex : Bool := %s\n" % ("true" if swap_locked else "false")
+    t += "/-- `TcpEngine::process`: true iff ONE call dispatches the whole swapped batch in order: the dispatch loop `for (auto &c : q)` is the only loop, has no break/continue/return outside `switch (c.t)`, `_cmds` is touched only by the locked `q.swap(_cmds)` (one `_cmdMutex` section), and process() does not write the eventfd (nothing is handed back to the queue) -/\n"
+    t += "def processDispatchesWholeBatch : Bool := %s\n" % ("true" if whole_batch else "false")
+    t += "/-- every mutation of `_cmds` in the engine (sorted; `swap-arg` = `x.swap(_cmds)`) and the number of `::write(_eventFd, ...)` statements (both in enqueue) -/\n"
+    t += "def cmdsMutations : List String := %s\n" % _lean_strs(cmds_mut)
+    t += "def eventFdWrites : Nat := %d\n" % evt_writes_total
     t += "/-- `TcpEngine::send`: value returned for `n == 0` without enqueueing (\"\" = no such early return), copy length, number of `enqueue` calls -/\n"
     t += "def sendEmptyReturns : String := \"%s\"\n" % (m0.group(1) if m0 else "")
     t += "def sendCopyLength : List String := %s\n" % _lean_strs([copy.group(2), copy.group(3)])
